@@ -6,6 +6,7 @@
 package main
 
 import (
+	"encoding/json"
 	"flag"
 	"fmt"
 	"os"
@@ -28,6 +29,7 @@ func main() {
 		noEv     = flag.Bool("no-evidence", false, "do not write evidence/reports (used when analysing scratch variants)")
 		verbose  = flag.Bool("v", false, "print every obligation")
 		listRule = flag.Bool("list", false, "list properties and rules")
+		specsOut = flag.Bool("specs", false, "print the property specifications as JSON (used to generate MANIFEST.json)")
 	)
 	flag.Parse()
 	start := time.Now()
@@ -56,6 +58,27 @@ func main() {
 
 	props := lint.Properties()
 	rules := lint.AllRules()
+	if *specsOut {
+		type js struct {
+			ID, Decided, NotDecided string
+			Rules, Thorough         []string
+			RuleText                map[string]string
+		}
+		var out []js
+		for _, id := range lint.PropertyIDs() {
+			sp := props[id]
+			j := js{ID: id, Decided: sp.Decided, NotDecided: sp.NotDecided, Rules: sp.Rules, Thorough: sp.Thorough, RuleText: map[string]string{}}
+			for _, r := range append(append([]string{}, sp.Rules...), sp.Thorough...) {
+				if rr, ok := rules[r]; ok {
+					j.RuleText[r] = rr.Text
+				}
+			}
+			out = append(out, j)
+		}
+		b, _ := json.MarshalIndent(out, "", " ")
+		fmt.Println(string(b))
+		return
+	}
 	if *listRule {
 		for _, id := range lint.PropertyIDs() {
 			fmt.Printf("%s: %s\n", id, strings.Join(props[id].Rules, " "))
